@@ -44,7 +44,9 @@ def gen_scalar(t, rnd):
     if t == "Character": return rnd.choice("abcXYZ019")
     return rnd.choice(["s", "foo", "Bar_1", "x-y", "longer_string_value", "0", "A|B"])
 
-def gen_case(seed):
+def gen_case(seed, overlong=0.0):
+    """overlong: probability that a fixed-Number field carries one value more than declared
+    (htslib and cyvcf2 pass such vectors through unchanged)."""
     rnd = random.Random(seed)
     ncontigs = rnd.randint(1, 4)
     with_len = rnd.random() < 0.7
@@ -86,6 +88,7 @@ def gen_case(seed):
                 if t == "Flag": r["info"][k] = True; continue
                 cnt = number_count(n, nalt, rnd)
                 if cnt == 0: continue
+                if n in ("1", "2", "3") and rnd.random() < overlong: cnt += 1
                 vals = [None if rnd.random() < 0.15 else gen_scalar(t, rnd) for _ in range(cnt)]
                 r["info"][k] = vals
             if ns > 0:
@@ -106,6 +109,7 @@ def gen_case(seed):
                         if u < 0.15: per.append(None); continue       # '.' for this sample
                         cnt = number_count(n, nalt, rnd)
                         if cnt == 0: per.append(None); continue
+                        if n in ("1", "2", "3") and rnd.random() < overlong: cnt += 1
                         per.append([None if rnd.random() < 0.15 else gen_scalar(t, rnd) for _ in range(cnt)])
                     r["fmt"][k] = per
                 # trailing keys dropped for some samples
